@@ -7,7 +7,8 @@
 //	harness_midicat -mode normal|nostart -seed S -n N -out verdict.json
 //
 // normal: N seeded random protocol-respecting lifecycle histories (open/close both ports, listen, stop, single
-// sends, bursts of concurrent senders, bursts that overlap a stop/listen pair) on fresh port objects and a
+// sends, bursts of concurrent senders, bursts that overlap a stop/listen pair or a close/open of the out port)
+// on fresh port objects and a
 // fresh FIFO each.  Checked per call: it returns within 10 s (watchdog; an expiry is reported with the history
 // so far and ends the run), its error class and IsOpen() of both ports are what the port contract says.
 // Checked per message (each carries sender and sequence number): one sent while out port open, in port open and
@@ -238,15 +239,17 @@ func (r *runner) listener(k int) func([]byte, int32) {
 	}
 }
 
-// send one message from `sender`; dontCare: the listening state may change while it is under way
-func (r *runner) send(sender int, dontCare bool) {
+// send one message from `sender`.  mode 0: the lifecycle is at rest; 1: the listening state changes while the
+// message is under way (it may or may not be delivered); 2: the out port is being closed and reopened
+// meanwhile (Send may succeed or report the closed port, and the message may or may not be delivered)
+func (r *runner) send(sender int, mode int) {
 	r.mu.Lock()
 	seq := r.nextSeq[sender]
 	r.nextSeq[sender]++
 	rec := &msgRec{expect: -1}
-	if !r.outOpen {
+	if !r.outOpen && mode != 2 {
 		rec.never = true
-	} else if r.inOpen && r.active >= 0 && !dontCare {
+	} else if r.inOpen && r.active >= 0 && mode == 0 {
 		rec.expect = r.active
 		r.pending++
 	}
@@ -260,11 +263,25 @@ func (r *runner) send(sender int, dontCare bool) {
 	}
 	vdMu.Unlock()
 	err := r.out.Send([]byte{0x90 | byte(sender), byte(seq >> 7), byte(seq & 0x7F)})
+	got := errClass(err)
+	if mode == 2 {
+		if got == "closed" {
+			r.mu.Lock()
+			rec.never = true
+			if rec.count > 0 {
+				r.violate("delivery", fmt.Sprintf("message sender=%d seq=%d was delivered although its Send reported the closed port", sender, seq))
+			}
+			r.mu.Unlock()
+		} else if got != "ok" {
+			r.violate("contract", fmt.Sprintf("Send returned %s (%v) while the out port was closed and reopened; the contract says ok or port-closed", got, err))
+		}
+		return
+	}
 	want := "ok"
 	if !outOpen {
 		want = "closed"
 	}
-	if got := errClass(err); got != want {
+	if got != want {
 		r.mu.Lock()
 		if rec.expect >= 0 && rec.count == 0 {
 			r.pending--
@@ -394,18 +411,20 @@ func (r *runner) step(op string, g *rng) bool {
 		r.mu.Unlock()
 		r.record("s"+strconv.Itoa(k), "ok")
 	case 'x':
-		if !r.call("out.Send", func() { r.send(0, false) }) {
+		if !r.call("out.Send", func() { r.send(0, 0) }) {
 			return false
 		}
 		r.record("x1", map[bool]string{true: "ok", false: "closed"}[r.outOpen])
 		if r.aborted.Load() || !r.settle() {
 			return false
 		}
-	case 'b', 'C':
-		// b<k>x<m>: k concurrent senders, m messages each; C...: the same while this goroutine stops and listens again
+	case 'b', 'C', 'D':
+		// b<k>x<m>: k concurrent senders, m messages each; C…: the same while this goroutine stops and listens
+		// again; D…: the same while this goroutine closes and reopens the out port
 		var k, m int
 		fmt.Sscanf(op[1:], "%dx%d", &k, &m)
 		overlap := op[0] == 'C'
+		mode := map[byte]int{'b': 0, 'C': 1, 'D': 2}[op[0]]
 		var wg sync.WaitGroup
 		started := make(chan struct{})
 		for s := 1; s <= k; s++ {
@@ -414,7 +433,7 @@ func (r *runner) step(op string, g *rng) bool {
 				defer wg.Done()
 				<-started
 				for i := 0; i < m; i++ {
-					r.send(s, overlap)
+					r.send(s, mode)
 				}
 			}(s)
 		}
@@ -448,6 +467,25 @@ func (r *runner) step(op string, g *rng) bool {
 				}
 				wg.Wait()
 			})
+		} else if mode == 2 {
+			ok = r.call("concurrent sends + out.Close + out.Open", func() {
+				close(started)
+				time.Sleep(time.Duration(g.intn(400)) * time.Microsecond)
+				e := r.out.Close()
+				r.mu.Lock()
+				r.outOpen = false
+				r.mu.Unlock()
+				r.record("co", errClass(e))
+				r.expectErr("out.Close", e, "ok")
+				time.Sleep(time.Duration(g.intn(200)) * time.Microsecond)
+				e = r.out.Open()
+				r.mu.Lock()
+				r.outOpen = true
+				r.mu.Unlock()
+				r.record("oo", errClass(e))
+				r.expectErr("out.Open", e, "ok")
+				wg.Wait()
+			})
 		} else {
 			ok = r.call("concurrent sends", func() { close(started); wg.Wait() })
 			r.record("x1", map[bool]string{true: "ok", false: "closed"}[r.outOpen])
@@ -455,8 +493,8 @@ func (r *runner) step(op string, g *rng) bool {
 		if !ok || r.aborted.Load() || !r.settle() {
 			return false
 		}
-		if overlap {
-			// let what the overlapping senders left in the pipe drain into the new listener before going on
+		if mode != 0 {
+			// let what the overlapping senders left in the pipe drain before going on
 			time.Sleep(2 * time.Millisecond)
 		}
 	}
@@ -469,7 +507,7 @@ func (r *runner) step(op string, g *rng) bool {
 // genOp: the next call of a random protocol-respecting history
 func (r *runner) genOp(g *rng) string {
 	for {
-		switch k := g.intn(27); {
+		switch k := g.intn(28); {
 		case k < 2:
 			return "oi"
 		case k < 4:
@@ -495,9 +533,13 @@ func (r *runner) genOp(g *rng) string {
 			return "x"
 		case k < 21:
 			return fmt.Sprintf("b%dx%d", g.rng(2, 4), g.rng(3, 30))
-		default:
+		case k < 25:
 			if r.active >= 0 && r.inOpen && r.outOpen {
 				return fmt.Sprintf("C%dx%d", g.rng(2, 3), g.rng(5, 30))
+			}
+		default:
+			if r.outOpen {
+				return fmt.Sprintf("D%dx%d", g.rng(2, 3), g.rng(5, 30))
 			}
 		}
 	}
